@@ -397,10 +397,14 @@ def parse_bad_ids(out):
 # ------------------------------------------------------------------ known findings / evidence / reporting
 
 def load_known():
-    p = os.path.join(VERIF, "known_findings.json")
-    if not os.path.exists(p):
-        return []
-    return json.load(open(p))["findings"]
+    """known findings: harness/meta/Cxx.findings.json are the sources; known_findings.json is their committed merge
+    (regenerated by harness/mkmanifest.py). Never written at run time."""
+    out = []
+    md = os.path.join(VERIF, "harness", "meta")
+    for fn in sorted(os.listdir(md)):
+        if fn.endswith(".findings.json"):
+            out += json.load(open(os.path.join(md, fn))).get("findings", [])
+    return out
 
 class Run:
     def __init__(self, pid, tier, seed):
